@@ -7,7 +7,7 @@ use crate::pipe::{self, Outcome, Shell, SHELLS};
 use crate::report::{Report, Samples, Tier};
 use std::collections::BTreeSet;
 
-const SEPS: [&str; 6] = [" ", "  ", "\n", "\t", "\u{c}", " # c\n"];
+const SEPS: [&str; 9] = [" ", "  ", "\n", "\t", "\u{c}", " # c\n", " #\n", " # a\rb\n", "\r\n"];
 
 fn allowed(sep: &str, glue: Glue) -> bool {
     match glue {
@@ -199,7 +199,7 @@ fn check_grammar(acc: &mut Acc, g: &G, shells: &[Shell], pairs: bool) {
         }
     }
     // leading / trailing blanks and comments
-    for (pre, post) in [("\n\n", ""), ("# head\n", ""), ("", "\n# tail"), ("\u{c}", "\n\n")] {
+    for (pre, post) in [("\n\n", ""), ("# head\n", ""), ("", "\n# tail"), ("\u{c}", "\n\n"), ("#\n#\n", ""), ("", "\n#"), ("# a\rb\n", "\r\n")] {
         rot += 1;
         variant(acc, "leading-trailing", format!("{pre}{base_text}{post}"), rot);
     }
